@@ -204,6 +204,7 @@ static std::vector<TokRec> data_records() {
 }
 // all ways to write a run of L identical entries (value v, or default when v empty) as star tokens
 static void compositions(int L, std::vector<int>& cur, std::vector<std::vector<int>>& out) { if (L == 0) { out.push_back(cur); return; } for (int k = 1; k <= L; ++k) { cur.push_back(k); compositions(L - k, cur, out); cur.pop_back(); } }
+static bool g_allow_early = true;      // R11 applies to records of fixed items; the length of an ALL-size array is what was written
 static void encodings(const std::vector<std::string>& items /* "" = default */, size_t pos, std::string cur, std::vector<std::string>& out, size_t cap) {
     if (out.size() >= cap) return;
     if (pos == items.size()) { out.push_back(cur + " /"); return; }
@@ -217,12 +218,14 @@ static void encodings(const std::vector<std::string>& items /* "" = default */, 
         encodings(items, e, s, out, cap);
     }
     // R11: a trailing run of defaults may be dropped entirely or partly (early slash)
-    if (items[pos].empty() && e == items.size()) for (int keep = 0; keep < L; ++keep) { std::string s = cur; for (int k = 0; k < keep; ++k) s += " 1*"; out.push_back(s + " /"); }
+    if (g_allow_early && items[pos].empty() && e == items.size()) for (int keep = 0; keep < L; ++keep) { std::string s = cur; for (int k = 0; k < keep; ++k) s += " 1*"; out.push_back(s + " /"); }
 }
 static void explore_tokens(TokRec t, bool is_data, const std::string& casebase, bool thorough) {
     if (!is_data) { const std::string kwn = t.kw == "TUNING1" ? "TUNING" : t.kw; size_t ni = P->getKeyword(kwn).getRecord(0).size(); if (t.val.size() > ni) { t.val.resize(ni); } if (R->shard == 0) R->notes["token_record_items"] += t.kw + "=" + std::to_string(t.val.size()) + "/" + std::to_string(ni) + " "; }
     int n = t.val.size();
-    std::vector<int> dpos; for (int i = 0; i < n && !is_data; ++i) if (i < (int)t.can_default.size() && t.can_default[i]) dpos.push_back(i);
+    g_allow_early = !is_data;
+    // data arrays (ALL-size items): every position may be defaulted, so that default runs precede / follow / separate n*v runs
+    std::vector<int> dpos; for (int i = 0; i < n; ++i) if (is_data || (i < (int)t.can_default.size() && t.can_default[i])) dpos.push_back(i);
     int nd = std::min<int>(dpos.size(), thorough ? 9 : 7);
     for (int mask = 0; mask < (1 << nd); ++mask) {
         if (!R->mine()) continue;
